@@ -708,6 +708,12 @@ fn run_seq(ops: &[SOp], leave: bool) -> SeqOut {
                                         if c.issuer != m { out.cross_shadow = true; }
                                     }
                                     inf.handed_by = m;
+                                    // a manager that synchronises (any level but NoWriteReadOnly) counts every token it hands out and
+                                    // keeps min_version at or below its version; a read-only token (no manager state, version 0, never
+                                    // counted, never released) handed out by such a manager is a live token the manager cannot see
+                                    if inf.kind == 2 && levels[m] != 0 {
+                                        out.failures.push((None, format!("(ii)/(iii) step {}: manager {} (level {}) handed out a read-only token of version {} that it neither counts nor protects (min_version {})", step, m, levels[m], inf.version, mg.vm().min_version())));
+                                    }
                                     o.push(inf.version as i128);
                                     held.push((tok, inf));
                                 }
@@ -988,6 +994,26 @@ pub fn run(args: &Args) {
         }
         cx.sum.dist_max("enumerated_sequential_histories", total as u64);
     }
+    // 4b. two TokenManagers of EVERY pair of concurrency levels (the thread-local token cache is shared by all managers of a
+    //     thread; read-only managers hand out tokens that carry no manager state): every history of a fixed length over
+    //     {acquire reader / writer through the cache on either manager, return or drop the oldest held token}
+    {
+        let alphabet = [SOp::TmAcqR(0), SOp::TmAcqW(0), SOp::TmAcqR(1), SOp::TmAcqW(1), SOp::Ret(0, 0), SOp::Drop(0)];
+        let len = if args.thorough { 5 } else { 4 };
+        let total = alphabet.len().pow(len as u32);
+        for l1 in 0..5u8 { for l2 in 0..5u8 {
+            if l1 == 3 && l2 == 3 { continue; } // covered by 4a
+            for code in 0..total {
+                let mut ops = vec![SOp::NewTm(l1), SOp::NewTm(l2)];
+                let mut c = code;
+                for _ in 0..len { ops.push(alphabet[c % alphabet.len()]); c /= alphabet.len(); }
+                cx.seq(&ops, code % 3 == 0, code % 211 == 0);
+            }
+        } }
+        cx.sum.dist_max("enumerated_cross_level_histories", (24 * total) as u64);
+    }
+    // 4c. the lazy free list on its own: queues longer than one and two bulk thresholds, reclaimed at every cut point
+    lazy_cells(&mut cx, args.thorough);
     let nseq = if args.thorough { 300000 } else { 5000 };
     for k in 0..nseq {
         if t0.elapsed().as_secs() > t_seq { cx.sum.dist("sequential_phase_cut_by_time"); break; }
@@ -1003,8 +1029,92 @@ pub fn run(args: &Args) {
     cx.sum.write(&args.out, sh);
 }
 
+/// LazyFreeList alone (oracle-only cell): items are pushed with non-decreasing ages (they are retired at the current version),
+/// `process_safe_items(min_version)` may hand an item to the free callback only if its age is below `min_version` - i.e. no
+/// token of that version or older can still see it -, hands them out oldest first, loses none and reports how many it freed.
+fn lazy_case(cx: &mut Ctx, threshold: u64, script: &[(u64, u64)]) {
+    let cell = "lazy_free_list";
+    let cj = json!({"cell": "lazy", "threshold": threshold, "script": script.iter().map(|(a, b)| json!([a, b])).collect::<Vec<_>>()});
+    cx.sum.eval(cell, &cj.to_string(), script.len() >= 3);
+    let r = guarded(|| -> Option<String> {
+        let mut l = if threshold == u64::MAX { LazyFreeList::new() } else { LazyFreeList::with_bulk_threshold(threshold as usize) };
+        let mut shadow: std::collections::VecDeque<(u64, u32)> = Default::default();
+        let mut next_id = 0u32;
+        for (step, &(op, v)) in script.iter().enumerate() {
+            if op == 0 {
+                l.push(LazyFreeItem::new(v, next_id, 8)); shadow.push_back((v, next_id)); next_id += 1;
+            } else {
+                let mut freed: Vec<(u64, u32)> = vec![];
+                let n = l.process_safe_items(v, |it| freed.push((it.age, it.memory_offset)));
+                if n != freed.len() { return Some(format!("step {}: process_safe_items({}) returned {} but freed {} items", step, v, n, freed.len())); }
+                for f in &freed {
+                    if f.0 >= v { return Some(format!("step {}: item of age {} was freed although min_version is {} (a token of version {} may still see it)", step, f.0, v, v)); }
+                    match shadow.pop_front() { Some(x) if x == *f => {}, other => return Some(format!("step {}: freed item {:?} is not the oldest queued item {:?}", step, f, other)) }
+                }
+            }
+            if l.len() != shadow.len() || l.is_empty() != shadow.is_empty() { return Some(format!("step {}: len() = {} but {} items are queued", step, l.len(), shadow.len())); }
+        }
+        // drain: with no version left to protect them, repeated processing must eventually free everything, in order
+        let mut rounds = 0;
+        while !shadow.is_empty() && rounds < 10_000 {
+            let mut freed: Vec<(u64, u32)> = vec![];
+            l.process_safe_items(u64::MAX, |it| freed.push((it.age, it.memory_offset)));
+            if freed.is_empty() { return Some(format!("drain: {} items are queued, none can be seen any more, yet nothing is freed", shadow.len())); }
+            for f in &freed { match shadow.pop_front() { Some(x) if x == *f => {}, other => return Some(format!("drain: freed item {:?} is not the oldest queued item {:?}", f, other)) } }
+            rounds += 1;
+        }
+        if !l.is_empty() { return Some("drain: the list is not empty at the end".into()); }
+        None
+    });
+    match r {
+        Err(p) => cx.sum.fail(cell, None, cj, &format!("panicked: {}", p)),
+        Ok(Some(m)) => cx.sum.fail(cell, None, cj, &m),
+        Ok(None) => {}
+    }
+}
+fn lazy_cells(cx: &mut Ctx, thorough: bool) {
+    cx.sum.cell_status("lazy_free_list", "S-only");
+    for &th in &[u64::MAX, 0, 1, 2, 5, 32] {
+        let t = if th == u64::MAX { 32 } else { th.max(1) } as u64;
+        for &n in &[0u64, 1, t - 1 + (t == 1) as u64, t, t + 1, 2 * t - 1, 2 * t, 2 * t + 1, 3 * t + 7] {
+            for step in [0u64, 1, 2] {
+                // ages 10, 10+step, ...; one reclaim at each interesting cut, then more pushes and a second reclaim
+                let ages: Vec<u64> = (0..n).map(|i| 10 + i * step).collect();
+                let mut cuts: Vec<u64> = vec![0, 10, 11];
+                for &i in &[0u64, t.saturating_sub(1), t, n.saturating_sub(t), n.saturating_sub(1)] { if (i as usize) < ages.len() { let a = ages[i as usize]; cuts.extend([a, a + 1]); } }
+                cuts.push(u64::MAX);
+                cuts.sort(); cuts.dedup();
+                for (k, &c) in cuts.iter().enumerate() {
+                    if !thorough && k % 2 == 1 && n > 2 * t { continue; }
+                    let mut script: Vec<(u64, u64)> = ages.iter().map(|&a| (0, a)).collect();
+                    script.push((1, c));
+                    let last = ages.last().copied().unwrap_or(10);
+                    script.extend((0..3).map(|j| (0, last + j)));
+                    script.push((1, c.saturating_add(1)));
+                    lazy_case(cx, th, &script);
+                }
+            }
+        }
+    }
+    let nr = if thorough { 3000 } else { 300 };
+    for _ in 0..nr {
+        let mut r = Rng::new(cx.rng.next());
+        let th = *r.pick(&[u64::MAX, 0, 1, 3, 8, 32]);
+        let mut age = r.below(5);
+        let mut script = vec![];
+        for _ in 0..r.range(1, 120) {
+            if r.chance(5, 6) { age += r.below(3); script.push((0, age)); }
+            else { let c = if r.chance(1, 2) { age.saturating_sub(r.below(40)) } else { r.below(age + 3) }; script.push((1, c)); }
+        }
+        lazy_case(cx, th, &script);
+    }
+}
+
 fn run_case(cx: &mut Ctx, c: &Value) {
-    if c["cell"].as_str() == Some("seq") {
+    if c["cell"].as_str() == Some("lazy") {
+        let script: Vec<(u64, u64)> = c["script"].as_array().map(|a| a.iter().map(|x| (x[0].as_u64().unwrap_or(0), x[1].as_u64().unwrap_or(0))).collect()).unwrap_or_default();
+        lazy_case(cx, c["threshold"].as_u64().unwrap_or(u64::MAX), &script);
+    } else if c["cell"].as_str() == Some("seq") {
         let ops: Vec<SOp> = c["ops"].as_array().map(|a| a.iter().filter_map(SOp::parse).collect()).unwrap_or_default();
         cx.seq(&ops, c["leave"].as_bool().unwrap_or(false), true);
     } else {
